@@ -204,6 +204,8 @@ def shards(tier):
                     fixed.update(c0=1, b1=0, a1=0)
                     if n3 and launcher == 0:
                         continue
+                else:
+                    fixed.update(c0=1)
                 out.append(dict(name=f'concurrent/{fixed}', harness='concurrent', fixed=fixed, budget_s=400 if tier == 'quick' else 2400))
     return out
 
@@ -212,7 +214,7 @@ BOUNDS = {
     'quick': dict(processes='2 or 3 concurrently stepping processes + optionally a child launched from a step of A or B', await_points='0..2 per step (symbolic; two of them fixed in the quick tier)',
                   extras='call_soon callback, wait/resume, pause of A at gap -1..6 with play at idle', nested='A executes B (executes C) re-entrantly, 0..1 await points before the nested call',
                   sampled='every step start/end, after every await, after launch / nested execute, every overridable hook, callbacks, and a non-process probe task between callbacks'),
-    'thorough': dict(processes='as quick', await_points='0..2 for every step (all symbolic)', extras='as quick', nested='as quick', sampled='as quick'),
+    'thorough': dict(processes='as quick', await_points='0..2 for every step of A and B (symbolic), C fixed to 1', extras='as quick', nested='as quick', sampled='as quick'),
 }
 OUTSIDE = ['real threads', 'more than 4 processes', 'nested execution on the StepLoop stub (the stock loop patched by nest_asyncio is used for that sub-case)']
 RULE = 'paths over (number of await points per step, who launches a child, callback, wait, pause position, nesting depth); non-trivial when all processes terminated and every sample was compared'
